@@ -110,6 +110,11 @@ findings.append({"id": "KF-C06-xls-parse-pictures", "property": "C06", "rule": "
     "what_fails": "xls::parse_pictures (feature `picture`): an OfficeArtFBSE record shorter than 34 bytes or whose name length points beyond it is indexed unchecked (`r.data[33]`, `&r.data[skip..]`), a blip record with an unlisted instance hits `unreachable!()` (7 arms), and a blip shorter than its header is sliced unchecked (`&r.data[ext_skip.1..]`): Xls::new panics instead of returning Err",
     "demo": "kf_c06_xls_art_records_hostile (--features picture; 22 inputs, every one of the 10 sites reached: src/xls.rs:1537, 1538, 1548..1602, 1609)",
     "directly_demonstrated": PIC_KEYS, "site_keys": PIC_KEYS})
+findings.append({"id": "KF-C06-cfb-reserved-sector-ids", "property": "C06", "rule": "R-CFBRES",
+    "what_fails": "cfb: reserved sector numbers (>= 0xFFFFFFFA) reach Sectors::get: the FAT loader only filters ids >= DIFSECT (0xFFFFFFFC), so a DIFAT entry 0xFFFFFFFA / 0xFFFFFFFB is read as a sector; Sectors::get_chain only stops at ENDOFCHAIN, so a chain that runs into FREESECT / FATSECT / DIFSECT is followed.  get() computes id * sector_size and resizes its buffer to it: a 6 KB file aborts the process with 'memory allocation of 2199023252992 bytes failed'",
+    "demo": "kf_c06_cfb_reserved_sector_ids_are_not_sectors (DIFAT entry 0xFFFFFFFA); kf_c06_cfb_chain_running_into_freesect (directory chain linked to FREESECT)",
+    "directly_demonstrated": ["cfb::Cfb::new|R-CFBRES|get#2", "cfb::Sectors::get_chain|R-CFBRES|get#1"],
+    "site_keys": ["cfb::Cfb::new|R-CFBRES|get#2", "cfb::Sectors::get_chain|R-CFBRES|get#1"]})
 print("findings", len(findings), "sites", sum(len(f["site_keys"]) for f in findings), "audited", len(audited), "leftover groups", len(leftovers))
 for fn, ks in leftovers:
     print("LEFTOVER", fn)
